@@ -39,6 +39,18 @@ class Identity(BaseEstimator, InvertibleBasis, MatrixMixin):
         else:
             raise ValueError("n_basis_modes must be a positive integer.")
 
+    @property
+    def n_basis_modes(self):
+        """Number of basis modes."""
+        return self._n_basis_modes
+
+    @n_basis_modes.setter
+    def n_basis_modes(self, n_basis_modes):
+        self._n_basis_modes = n_basis_modes
+        # Remember whether the number was chosen by the user: the default
+        # (all examples) has to be recomputed for the data of every fit.
+        self._n_basis_modes_is_default = n_basis_modes is None
+
     def fit(self, X):
         """
         Memorize the input data.
@@ -54,9 +66,9 @@ class Identity(BaseEstimator, InvertibleBasis, MatrixMixin):
         """
 
         # Note that we take a transpose here, so columns correspond to examples
-        if self.n_basis_modes is None:
+        if self._n_basis_modes_is_default:
             self.basis_matrix_ = check_array(X).T.copy()
-            self.n_basis_modes = self.basis_matrix_.shape[1]
+            self._n_basis_modes = self.basis_matrix_.shape[1]
         else:
             if self.n_basis_modes > X.shape[0]:
                 raise ValueError(
